@@ -161,6 +161,37 @@ def solve(net, **opts):
         return SolveResult("crash", e)
 
 
+def reload_net(net, how):
+    """What users do to a net object between two calculations without changing what it describes: save and load it,
+    copy it, post-process a result table. Returns the net to go on with (same physical description).
+    how: "pickle" | "json" | "deepcopy" | "touch" (re-assign one column of every result table, which leaves the
+    table's values untouched but changes how pandas stores it)."""
+    import copy
+    import os
+    import tempfile
+    import pandapipes as pp
+    if how == "deepcopy":
+        return copy.deepcopy(net)
+    if how == "pickle":
+        with tempfile.TemporaryDirectory(prefix="vp_reload_") as d:
+            fn = os.path.join(d, "net.p")
+            pp.to_pickle(net, fn)
+            return pp.from_pickle(fn)
+    if how == "json":
+        return pp.from_json_string(pp.to_json(net))
+    if how == "touch":
+        for t in res_tables(net):
+            df = net[t]
+            if len(df.columns):
+                c = df.columns[0]
+                df[c] = df[c].values.copy()
+        return net
+    raise ValueError(how)
+
+
+RELOADS = ["pickle", "json", "deepcopy", "touch"]
+
+
 def exc_sig(e):
     """type + innermost pandapipes frame of an exception (for bucketing crashes by root cause)."""
     import traceback
